@@ -360,6 +360,8 @@ type world struct {
 	everPublished map[string]int
 	dbDown        bool
 	stalled       bool
+	hctx          context.Context
+	hcancel       context.CancelFunc
 	pastSummaries string
 	deliveryStep  bool
 
@@ -430,6 +432,9 @@ func (w *world) newProcessor() {
 		}
 	}()
 	w.parked = nil
+	// handler calls get a context created inside the bubble: a select on a context from outside
+	// would not be a durable wait, and a stalled handler must be releasable at the end of the run
+	w.hctx, w.hcancel = context.WithCancel(w.supCtx)
 	if w.loop {
 		w.runCtx, w.cancel = context.WithCancel(w.supCtx)
 		w.runDone = make(chan struct{})
@@ -447,10 +452,14 @@ func (w *world) newProcessor() {
 }
 
 func (w *world) stopProcessor() {
+	if w.hcancel != nil {
+		defer w.hcancel()
+	}
 	if w.stalled {
 		if w.cancel != nil {
 			w.cancel()
 		}
+		w.hcancel()
 		close(w.stopDr)
 		return
 	}
@@ -715,7 +724,7 @@ func (w *world) runStep(i int, st simkit.Step) {
 		if w.loop {
 			w.guard(func() { w.lockC <- k })
 		} else {
-			w.guard(func() { w.p.handleMessage(w.supCtx, k) })
+			w.guard(func() { w.p.handleMessage(w.hctx, k) })
 		}
 	case "inj":
 		d := decodeMsg(st.A)
@@ -725,7 +734,7 @@ func (w *world) runStep(i int, st simkit.Step) {
 		if w.loop {
 			w.guard(func() { w.injectC <- v })
 		} else {
-			w.guard(func() { w.p.handleInjection(w.supCtx, v) })
+			w.guard(func() { w.p.handleInjection(w.hctx, v) })
 		}
 	case "loop":
 		if !w.loop && len(w.parked) > 0 {
@@ -738,7 +747,7 @@ func (w *world) runStep(i int, st simkit.Step) {
 			obsHash = hex.EncodeToString(ob.Hash)
 			w.noteDelivery(ob, &obsAcceptable)
 			before = w.stateDump()
-			w.guard(func() { w.p.handleObservation(w.supCtx, ob) })
+			w.guard(func() { w.p.handleObservation(w.hctx, ob) })
 		} else {
 			w.log.Add("noop-loop")
 		}
@@ -750,7 +759,7 @@ func (w *world) runStep(i int, st simkit.Step) {
 		if w.loop {
 			w.guard(func() { w.obsvC <- ob })
 		} else {
-			w.guard(func() { w.p.handleObservation(w.supCtx, ob) })
+			w.guard(func() { w.p.handleObservation(w.hctx, ob) })
 		}
 	case "vaa":
 		b := w.buildInbound(st)
@@ -758,7 +767,7 @@ func (w *world) runStep(i int, st simkit.Step) {
 		if w.loop {
 			w.guard(func() { w.signedInC <- m })
 		} else {
-			w.guard(func() { w.p.handleInboundSignedVAAWithQuorum(w.supCtx, m) })
+			w.guard(func() { w.p.handleInboundSignedVAAWithQuorum(w.hctx, m) })
 		}
 	case "tick":
 		w.doTicks(st)
@@ -1369,7 +1378,7 @@ func (w *world) doTicks(st simkit.Step) {
 	for k := 0; k < n && !w.dead; k++ {
 		time.Sleep(dt)
 		if !w.loop {
-			w.guard(func() { w.p.handleCleanup(w.supCtx) })
+			w.guard(func() { w.p.handleCleanup(w.hctx) })
 		} else {
 			// the Run loop must be back in its select: a set update hand-off completes at once
 			if cur := w.p.gs; cur != nil {
